@@ -47,8 +47,11 @@ TECHNIQUE = ('explicit-state exploration of build/evaluate/set histories on '
 LEVEL_TEXT = ('Every history of compile / evaluate / set_cell_value calls up '
               'to the depth bound is replayed on the real model from both '
               'initial states; in each reached state the model is written to '
-              'a plain and a gzip JSON file, restored, and compared cell by '
-              'cell, name by name and by evaluating every cell.')
+              'a plain and a gzip JSON file, restored (into a new Model, a '
+              'second time after the first restored model was changed, and '
+              'into a Model object that held another model, evaluated also '
+              'through the evaluator made for it before), and compared cell '
+              'by cell, name by name and by evaluating every cell.')
 LEVEL_NOTE = ('Every transition and every round trip is an execution of the '
               'implementation.  Bounded: 2 models of <= 12 cells, histories '
               'up to the depth bound; no crash-consistency claim (none in '
